@@ -183,8 +183,9 @@ def main():
     prop = a.prop; tier = a.tier if a.tier in ('quick', 'thorough') else 'quick'
     seed = int(os.environ.get('VERIF_SEED', '0') or 0)
     t0 = time.time()
-    os.makedirs(os.path.join(VERIF, 'evidence'), exist_ok=True)
-    evpath = os.path.join(VERIF, 'evidence', prop + '.json')
+    evdir = os.environ.get('VERIF_EVIDENCE_DIR', os.path.join(VERIF, 'evidence'))
+    os.makedirs(evdir, exist_ok=True)
+    evpath = os.path.join(evdir, prop + '.json')
     specs = props.scenarios(prop, tier, seed)
     for s in specs: s['prop'] = prop
     if a.only: specs = [s for s in specs if a.only in s['name']]
@@ -213,7 +214,8 @@ def main():
                 v['replay'] = {'status': 'known-finding'}
                 continue
             # replay against the real build before reporting
-            path = os.path.join(VERIF, 'scratch', 'replay', '%s_%s_%s.json' % (prop, r['name'], v['oracle']))
+            path = os.path.join(os.environ.get('VERIF_REPLAY_DIR', os.path.join(VERIF, 'scratch', 'replay')), '%s_%s_%s.json' % (prop, r['name'], v['oracle']))
+            os.makedirs(os.path.dirname(path), exist_ok=True)
             json.dump({'property': prop, 'scenario': [s for s in specs if s['name'] == r['name']][0], 'violation': v}, open(path, 'w'), indent=1)
             rep = replay(path)
             v['replay'] = rep
